@@ -71,12 +71,19 @@ func durClass(c *hx.Ctx, T int64, cls int) int64 {
 	return int64(c.Rng.Intn(int(3*T))) + 1
 }
 
+// error kinds a handler may return (see main.go: mkErr): plain, wrapped DeadlineExceeded, Canceled, the bare
+// DeadlineExceeded sentinel, wrapped Canceled, a type whose Is(DeadlineExceeded) holds
+var errKinds = []int{1, 2, 3, 4, 5, 101, 102, 103, 104, 105}
+
 func randBeh(c *hx.Ctx, T int64, val int, honPct int) beh {
 	b := beh{dur: durClass(c, T, c.Rng.Intn(9)), hon: c.Rng.Intn(100) < honPct, v: val}
+	if c.Rng.Intn(12) == 0 {
+		b.v = typedNilCode
+	}
 	if c.Rng.Intn(3) == 0 {
-		b.e = 1 + c.Rng.Intn(5)
-		if c.Rng.Bool() {
-			b.v = 0
+		b.e = errKinds[c.Rng.Intn(len(errKinds))]
+		if c.Rng.Intn(3) == 0 {
+			b.v = 0 // otherwise: a non-nil result TOGETHER with a non-nil error
 		}
 	}
 	return b
@@ -167,6 +174,85 @@ func gen(c *hx.Ctx) {
 			c.Count("park_random")
 		}
 	}
+	// 3b. handler outcome kinds: every (result kind x error kind) at every position relative to the deadline; the pair
+	// published by Get2 / handed to onError must be the very pair the handler returned (identity, not errors.Is)
+	{
+		const T = 1000
+		vals := []int{0, 7, typedNilCode}
+		errs := []int{0, 3, 101, 102, 103, 104, 105}
+		for _, d := range []int64{400, T, T + 500} {
+			for _, v := range vals {
+				for _, e := range errs {
+					hon := (v+e)%2 == 0
+					emit(c, 1, nil, []gtask{{0, 50, T, 1, true, true, []beh{{d, hon, v, e}}}})
+					emit(c, 1+c.Rng.Intn(2), nil, []gtask{{0, 50, T, 2, true, c.Rng.Intn(4) != 0, []beh{{d, !hon, v, e}, {[]int64{300, T, 1700}[c.Rng.Intn(3)], true, vals[c.Rng.Intn(3)], errs[c.Rng.Intn(len(errs))]}}}})
+					c.Count("outcome_kinds")
+				}
+			}
+		}
+	}
+	// 3c. default-option tasks (no timeout: T <= 0, retry 0/1) sent while timed tasks' ctx-ignoring handlers overrun:
+	// more tasks than N; the handlers of the untimed tasks must still queue for the N inner workers
+	for i := 0; i < c.Budget(120, 1500); i++ {
+		n := 1 + c.Rng.Intn(4)
+		T := int64(1000)
+		var tasks []gtask
+		var tm int64 = int64(c.Rng.Intn(20))
+		nTimed := 1 + c.Rng.Intn(n)
+		for k := 0; k < nTimed; k++ {
+			R := 1 + c.Rng.Intn(2)
+			var bs []beh
+			for j := 0; j < R; j++ {
+				bs = append(bs, beh{int64(4000 + c.Rng.Intn(9000)), false, 5 + j, 0})
+			}
+			tasks = append(tasks, gtask{c.Rng.Intn(2), tm, T, R, false, true, bs})
+			tm += int64(1 + c.Rng.Intn(60))
+		}
+		tm = T + 100 + int64(c.Rng.Intn(1500)) // the dispatchers are free again, the inner workers are not
+		nUntimed := 1 + c.Rng.Intn(n+2)
+		for k := 0; k < nUntimed; k++ {
+			b := beh{int64(200 + c.Rng.Intn(3000)), c.Rng.Bool(), 30 + k, 0}
+			if c.Rng.Intn(4) == 0 {
+				b.e = errKinds[c.Rng.Intn(len(errKinds))]
+			}
+			rawT := []int64{0, 0, -1}[c.Rng.Intn(3)]
+			rawR := []int{1, 0, 1, 2}[c.Rng.Intn(4)]
+			tasks = append(tasks, gtask{2 + c.Rng.Intn(2), tm, rawT, rawR, c.Rng.Intn(3) == 0, c.Rng.Bool(), []beh{b, {100, true, 50 + k, 0}}})
+			tm += int64(1 + c.Rng.Intn(400))
+		}
+		if c.Rng.Bool() {
+			tasks = append(tasks, gtask{0, tm, T, 1, true, true, []beh{{500, true, 70, 0}}})
+		}
+		emit(c, n, nil, tasks)
+		c.Count("mixed_untimed")
+	}
+	// 3d. larger pools: N tasks running with long handlers, then the queue is filled one task at a time at distinct
+	// instants: 2N-1 / 2N outstanding tasks are accepted, the (2N+1)-th discardable one is rejected (queue exactly full),
+	// a non-discardable one blocks until a slot frees
+	for _, n := range []int{16, 17, 32, 33} {
+		for variant := 0; variant < c.Budget(2, 4); variant++ {
+			var tasks []gtask
+			var tm int64
+			long := int64(100000 + 1000*variant)
+			for k := 0; k < 2*n+2; k++ {
+				discard := true
+				if variant%2 == 1 && k%5 == 0 {
+					discard = false
+				}
+				if k == 2*n+1 {
+					discard = variant >= 2 // the last one: rejected, or (non-discardable) blocked until a handler returns
+				}
+				d := long
+				if k >= n {
+					d = 50
+				}
+				tasks = append(tasks, gtask{k % 3, tm, 0, 1, discard, true, []beh{{d, true, 1 + k, 0}}})
+				tm += int64(3 + c.Rng.Intn(5))
+			}
+			emit(c, n, nil, tasks)
+			c.Count(fmt.Sprintf("large_pool_n%d", n))
+		}
+	}
 	// 4. random multi-task scenarios
 	for i := 0; i < c.Budget(1600, 12000); i++ {
 		n := 1 + c.Rng.Intn(4)
@@ -184,7 +270,15 @@ func gen(c *hx.Ctx) {
 				bs = append(bs, randBeh(c, T, 10*(k+1)+j, honPct))
 			}
 			discard := c.Rng.Intn(4) != 0
-			tasks = append(tasks, gtask{c.Rng.Intn(ng), tm, T, R, discard, c.Rng.Intn(4) != 0, bs})
+			rawT, rawR := T, R
+			if c.Rng.Intn(8) == 0 { // default options: no timeout (and often no retry)
+				rawT = 0
+				if c.Rng.Bool() {
+					rawR = c.Rng.Intn(2)
+				}
+				c.Count("random_default_option_tasks")
+			}
+			tasks = append(tasks, gtask{c.Rng.Intn(ng), tm, rawT, rawR, discard, c.Rng.Intn(4) != 0, bs})
 			if burst {
 				tm += int64(1 + c.Rng.Intn(40))
 			} else {
